@@ -17,6 +17,9 @@ let () =
   register "enc.via" (function [_route; d; h] -> show_outcome show_cow (dec d (bytes_of_hex h)) | _ -> "BADCASE");
   register "enc.ctx" (function [d; _pre; h; _post] ->
       show_outcome (fun c -> show_cow c ^ show_ptr c) (dec d (bytes_of_hex h)) | _ -> "BADCASE");
+  (* s_c12 (wave 6): like enc.ctx; the absolute address of the slice is not part of the model *)
+  register "enc.al" (function [d; _al; _pre; h; _post] ->
+      show_outcome (fun c -> show_cow c ^ show_ptr c) (dec d (bytes_of_hex h)) | _ -> "BADCASE");
   register "enc.display" (function [h] ->
       let b = bytes_of_hex h in
       show_outcome (function
